@@ -318,6 +318,13 @@ func (batch *Batch) readMessage(
 				// jump past the saved lastOffset.
 				batch.offset = batch.lastOffset + 1
 			}
+			if errors.Is(batch.err, io.EOF) && batch.msgs.passed > batch.offset {
+				// Same thing when the batches that the reader went past
+				// entirely are not the last thing in the response (a batch
+				// cut at the size limit follows them), are compressed, or
+				// have no record at all.
+				batch.offset = batch.msgs.passed
+			}
 		}
 	default:
 		// Since io.EOF is used by the batch to indicate that there is are
